@@ -87,6 +87,12 @@ func swallowedErrors(p *Path, exempt func(*ssa.Call) bool) []*ssa.Call {
 		if exempt != nil && exempt(c) {
 			continue
 		}
+		if c.Call.IsInvoke() {
+			// hash.Hash.Write never returns an error (documented contract)
+			if nt, ok := c.Call.Value.Type().(*types.Named); ok && nt.Obj().Pkg() != nil && nt.Obj().Pkg().Path() == "hash" && nt.Obj().Name() == "Hash" {
+				continue
+			}
+		}
 		if ev == nil {
 			out = append(out, c) // error result discarded
 			continue
